@@ -3927,9 +3927,13 @@ impl Handler {
             return self.query_program(Some(kg), program).await;
         }
 
+        #[cfg(inputlayer_verif)]
+        crate::verif_hooks::yield_point("handler.session_query.after_clean_check");
         // Slow path: combine ephemeral + persistent data
         // Get ephemeral facts and rules from session
         let session_facts = self.sessions.get_session_facts(session_id)?;
+        #[cfg(inputlayer_verif)]
+        crate::verif_hooks::yield_point("handler.session_query.between_reads");
         let rule_texts: Vec<String> = self
             .sessions
             .with_session(session_id, |session| session.rule_texts().to_vec())?;
@@ -3953,6 +3957,8 @@ impl Handler {
         self.inc_query_count();
         let start = Instant::now();
 
+        #[cfg(inputlayer_verif)]
+        crate::verif_hooks::yield_point("handler.session_query.before_snapshot");
         // Get snapshot under read lock, then RELEASE lock immediately.
         // This prevents lock convoys: holding the lock during DD computation
         // would block all mutations (the exact bug fixed in PR #12 for regular queries).
